@@ -176,9 +176,9 @@ theorem basisProd_ne_zero_iff (dims : List (Dim α)) (coords : List (List α)) (
     (h : gridPoint coords g = some xs) :
     (∀ d, d < dims.length →
       Bind (indR (dimAt dims d).knots (xAt coords g d)) (dimAt dims d).knots (xAt coords g d)
-        (dimAt dims d).order (c.getD d 0) ≠ 0) ↔ basisProd dims xs c ≠ 0 := by
+        (dimAt dims d).order (c.getD d 0) ≠ 0) ↔ gridBasisProd dims xs c ≠ 0 := by
   induction dims generalizing coords g xs c with
-  | nil => simp [basisProd]
+  | nil => simp [gridBasisProd]
   | cons d ds ih =>
     cases coords with
     | nil => simp at hlen
@@ -199,7 +199,7 @@ theorem basisProd_ne_zero_iff (dims : List (Dim α)) (coords : List (List α)) (
               subst h
               have ih' := ih cs gs xs' c' (by simpa using hlen) (by simpa using hc) hr
               have hx : co.getD g0 0 = x := by simp [List.getD_eq_getElem?_getD, hco]
-              simp only [basisProd, mul_ne_zero_iff, ← ih', List.length_cons]
+              simp only [gridBasisProd, mul_ne_zero_iff, ← ih', List.length_cons]
               constructor
               · intro hall
                 refine ⟨?_, fun d' hd' => ?_⟩
@@ -221,7 +221,7 @@ theorem gridEval_lists (dims : List (Dim α)) (coef : Int → α) (coords : List
     ∃ nd, gridEval dims coef coords = some nd ∧
       ∀ g xs, gridPoint coords g = some xs →
         (nd.Lists g ↔ ∃ c, IdxIn c (dims.map (·.naxes)) ∧
-          coef (posL dims c : Nat) * basisProd dims xs c ≠ 0) := by
+          coef (posL dims c : Nat) * gridBasisProd dims xs c ≠ 0) := by
   obtain ⟨nd, h1, _, h3⟩ := gridLoop_listed dims coef coords hlen hwf.naxes_eq dims.length 0
     (coefTensor dims coef) (by omega) (gridInv_init dims coef coords hwf.strides hwf.ne)
     (gridListed_init dims coef coords hwf.strides hwf.ne)
